@@ -34,14 +34,14 @@ class Step(VC):
     property_id = "C15"
     crate = FLEX
 
-    def __init__(self, variant):
-        self.variant = variant
+    def __init__(self, variant, after=None):
+        self.variant, self.after = variant, after
         self.extra_crates = ("cw3",)
-        self.name = f"C15.flex.{variant}"
+        self.name = "C15.flex." + (f"chain.{after}.then." if after else "") + variant
 
     def run(self, I, ctx, ob):
         v = self.variant
-        f = ms_step(I, ctx, ob, FLEX, v)
+        f = ms_step(I, ctx, ob, FLEX, v, after=self.after)
         if f.outcome != "Ok": return
         out = msgs_of(f.resp)
         if v == "Propose":
@@ -133,7 +133,13 @@ class Recoverable(VC):
 
 
 def vcs(tier):
-    return [Step(v) for v in ("Propose", "Vote", "Execute", "Close")] + [Recoverable()]
+    out = [Step(v) for v in ("Propose", "Vote", "Execute", "Close")] + [Recoverable()]
+    # two-call chains on one proposal (thorough): the second call is judged on the state the first really left behind
+    import os
+    if tier == "thorough" and os.environ.get("VERIF_CHAINS"):
+        CHV = ("Vote", "Execute", "Close")
+        out += [Step(b, after=a) for a in CHV for b in CHV]
+    return out
 
 
 BOUNDS = {"group members with state": NV, "proposals with state": "1 focus + 1 bystander", "messages per proposal": "<= 1", "funds coins": "<= 1 (vec bound)",
